@@ -76,9 +76,9 @@ def pinv_case(ctx: Ctx, stream: str, i: int) -> None:
     ctx.case(sx(esx), True, sample=None)
 
 
-def one_case(ctx: Ctx, stream: str, i: int, max_len: int, depth: int) -> None:
+def one_case(ctx: Ctx, stream: str, i: int, max_len: int, depth: int, force_pattern=None) -> None:
     rng = ctx.rng(stream, i)
-    e, info = gen.gen_expression(rng, max_len=max_len, depth=depth)
+    e, info = gen.gen_expression(rng, max_len=max_len, depth=depth, force_pattern=force_pattern)
     enc = Encoder()
     try:
         esx = enc.op(e)
@@ -143,11 +143,16 @@ def one_case(ctx: Ctx, stream: str, i: int, max_len: int, depth: int) -> None:
 
 
 def run(ctx: Ctx) -> None:
-    n = 250 if ctx.tier == 'quick' else 4000
+    n = 160 if ctx.tier == 'quick' else 3000
     max_len, depth = (6, 2) if ctx.tier == 'quick' else (10, 3)
     for i in range(n):
         if ctx.want('expr', i):
             one_case(ctx, 'expr', i, max_len, depth)
+    # every documented pattern, planted at a random position of a random context, several times each
+    per = 8 if ctx.tier == 'quick' else 120
+    for i in range(per * len(gen.PATTERNS)):
+        if ctx.want('pattern', i):
+            one_case(ctx, 'pattern', i, 5, 1, force_pattern=gen.PATTERNS[i % len(gen.PATTERNS)])
     for i in range(8 if ctx.tier == 'quick' else 100):
         if ctx.want('pinv', i):
             pinv_case(ctx, 'pinv', i)
